@@ -457,3 +457,99 @@ Proof.
     destruct pc as [|r| | | |r| | |r|[|]| | | |]; cbn in Sl; try discriminate; cbn [worker_enabled] in D; try discriminate;
       rewrite OW in D; discriminate.
 Qed.
+
+(* ---- the syntactic guard "no low-priority tasks": the low-priority queue stays empty ---- *)
+Definition no_lowprio (a : api) : Prop := match a with ASubmitLow _ => False | _ => True end.
+Definition nolow_prim (p : prim) : Prop := match p with PSubmit _ true => False | _ => True end.
+
+Definition NL (c : cfg) (g : gst) (ls : locals lstate) : Prop :=
+  (forall i tk, inq g i tk -> i < nw c) /\ (forall t cl, ls t = LClient cl -> Forall nolow_prim (todo cl)).
+
+Lemma expand_nolow : forall c a, no_lowprio a -> Forall nolow_prim (expand c a).
+Proof.
+  intros c a H. apply Forall_forall. intros p Hp. destruct p as [| | | | | | | | |h [|]]; try exact I. exfalso.
+  destruct a as [x self|x|self| |h0|h0]; cbn [expand no_lowprio] in *.
+  - unfold spu_direct, spu_internal in Hp. cbv zeta in Hp. destruct (nth 0 g_spu_refusal_returns false), (nth 1 g_spu_refusal_returns false),
+      (negb (elastic c)), (self && negb (stealing c)); cbn in Hp; intuition discriminate.
+  - cbn in Hp. intuition discriminate.
+  - unfold pool_suspend in Hp. cbv zeta in Hp. rewrite in_app_iff in Hp. destruct Hp as [Hp|[Hp|[]]]; [|discriminate].
+    assert (B : ~ In (PSubmit h true) (PWaitIdle :: map PCas (seq 0 (nw c)) ++ flat_map spu_internal (seq 0 (nw c)))).
+    { intros [Hq|Hq]; [discriminate|]. rewrite in_app_iff in Hq. destruct Hq as [Hq|Hq].
+      - apply in_map_iff in Hq. destruct Hq as (y & Hy & _). discriminate.
+      - apply in_flat_map in Hq. destruct Hq as (y & _ & [Hy|[Hy|[]]]); discriminate. }
+    destruct self; [destruct g_pool_refusal_returns; [destruct Hp as [Hp|[]]; discriminate|destruct Hp as [Hp|Hp]; [discriminate|exact (B Hp)]]|exact (B Hp)].
+  - unfold pool_resume in Hp. rewrite !in_app_iff in Hp. destruct Hp as [[Hp|Hp]|[Hp|[]]]; [| |discriminate].
+    + apply in_map_iff in Hp. destruct Hp as (y & Hy & _). discriminate.
+    + apply in_flat_map in Hp. destruct Hp as (y & _ & [Hy|[Hy|[]]]); discriminate.
+  - cbn in Hp. destruct Hp as [Hp|[]]. discriminate.
+  - exact H.
+Qed.
+
+Lemma tstep_nl : forall c, nw c > 0 -> forall o t g (ls : locals lstate), QI c g ls /\ NL c g ls ->
+  NL c (fst (sr_tstep c o t g (ls t))) (upd ls t (snd (sr_tstep c o t g (ls t)))).
+Proof.
+  intros c Hn o t g ls [[Q P] [N1 N2]].
+  assert (Hid : NL c g (upd ls t (ls t))).
+  { split; [exact N1|]. intros t2 cl2 H. unfold upd in H. destruct (Nat.eqb t2 t) eqn:E; [apply Nat.eqb_eq in E; subst|]; eapply N2; eassumption. }
+  destruct (ls t) as [pc|cl|] eqn:L; cbn [sr_tstep]; [| |exact Hid].
+  - destruct (Nat.ltb t (nw c)) eqn:Lt; [|exact Hid]. apply Nat.ltb_lt in Lt.
+    pose proof (worker_qeff c o t g pc Lt) as (_ & _ & Kq). destruct (worker_step c o t g pc) as [g' pc']. cbn [fst snd] in *. split.
+    + intros i tk Hin. destruct (Kq i tk Hin) as [H0|[_ [[-> _]|[-> Hs]]]]; [exact (N1 i tk H0)|exact Lt|].
+      apply (N1 (lowq c) tk). right. exact Hs.
+    + intros t2 cl2 H. unfold upd in H. destruct (Nat.eqb t2 t); [discriminate|]. eapply N2; eassumption.
+  - destruct (Nat.ltb t (nw c)); [exact Hid|].
+    pose proof (client_qeff c o t g cl) as Cq. pose proof (client_todo c o t g cl) as Ct.
+    destruct (client_step c o t g cl) as [g' cl']. cbn [fst snd] in *. split.
+    + intros i tk Hin. destruct Cq as [(E1 & E2 & _)|(q & v & h & low & rest & Htd & Hd & E1 & E2 & _)].
+      * unfold inq in Hin. rewrite E1, E2 in Hin. exact (N1 i tk Hin).
+      * unfold inq in Hin. rewrite E1, E2 in Hin. rewrite in_app_iff in Hin. cbn in Hin.
+        assert (Hin' : inq g i tk \/ i = q) by (unfold inq; destruct Hin as [H|[H|[H|[]]]]; auto; inversion H; auto).
+        destruct Hin' as [H0| ->]; [exact (N1 i tk H0)|].
+        pose proof (N2 t cl L) as F. rewrite Htd in F. inversion F as [|? ? F1 _]; subst. cbn in F1. destruct low; [contradiction|].
+        pose proof (P t cl L) as PO. unfold phase_ok in PO.
+        destruct Hd as [(i0 & Hp & -> & _)|(i0 & Hp & -> & _)]; rewrite Hp in PO; [rewrite Htd in PO|]; exact PO.
+    + intros t2 cl2 H. unfold upd in H. destruct (Nat.eqb t2 t).
+      * inversion H; subst. pose proof (N2 t cl L) as F. destruct Ct as [-> | ->]; [exact F|apply forall_tl, F].
+      * eapply N2; eassumption.
+Qed.
+
+Lemma sr_nolow : forall c progs sched, nw c > 0 -> (forall t, Forall no_lowprio (progs t)) ->
+  qof (lowq c) (qs (fst (sr_run c progs sched))) = [] /\ qof (lowq c) (sq (fst (sr_run c progs sched))) = [].
+Proof.
+  intros c progs sched Hn Hnl.
+  assert (R : QI c (fst (sr_run c progs sched)) (snd (sr_run c progs sched)) /\ NL c (fst (sr_run c progs sched)) (snd (sr_run c progs sched))).
+  { unfold sr_run.
+    apply (run_inv gst lstate oracle (sr_tstep c) (fun g ls => QI c g ls /\ NL c g ls)).
+    - intros o t g ls H. split; [apply tstep_qi; [exact Hn|exact (proj1 H)]|apply tstep_nl; assumption].
+    - cbn [fst snd]. split; [split; [intros i tk [[]|[]]|]|split; [intros i tk [[]|[]]|]].
+      + intros t cl H. unfold sr_locals in H. destruct (Nat.ltb t (nw c)); [discriminate|]. inversion H; subst. exact I.
+      + intros t cl H. unfold sr_locals in H. destruct (Nat.ltb t (nw c)); [discriminate|]. inversion H; subst. cbn [todo].
+        generalize (Hnl t). generalize (progs t). induction l as [|a l IH]; intros F; cbn; [constructor|]. inversion F; subst.
+        apply Forall_app. split; [apply expand_nolow; assumption|apply IH; assumption]. }
+  destruct R as [_ [N1 _]].
+  assert (E : forall l, (forall tk, In (lowq c, tk) l -> inq (fst (sr_run c progs sched)) (lowq c) tk) -> qof (lowq c) l = []).
+  { intros l Hl. destruct (qof (lowq c) l) as [|x r] eqn:Eq; [reflexivity|exfalso].
+    assert (Hin : In x (qof (lowq c) l)) by (rewrite Eq; left; reflexivity). apply in_qof in Hin.
+    pose proof (N1 _ _ (Hl x Hin)) as B. unfold lowq in B. lia. }
+  split; apply E; intros tk H; [left|right]; exact H.
+Qed.
+
+(* the old statements under the syntactic guard "no low-priority task is ever submitted" *)
+Lemma suspend_resume_return_nolow : forall c progs sched, nw c > 0 -> (forall t, Forall (api_ok c) (progs t)) ->
+  (forall t, Forall no_lowprio (progs t)) ->
+  let cf := sr_run c progs sched in
+  stuck c cf -> forall t, client_done (snd cf t) = true \/ (at_wait_idle (snd cf t) = true /\ live (fst cf) > 0).
+Proof.
+  intros c progs sched Hn Hok Hnl cf S. destruct (sr_nolow c progs sched Hn Hnl) as [E1 E2].
+  exact (suspend_resume_return_guarded c progs sched Hok S E1 E2).
+Qed.
+
+Lemma no_task_stranded_stealing_nolow : forall c progs sched w0, (forall t, Forall (api_ok c) (progs t)) ->
+  (forall t, Forall no_lowprio (progs t)) ->
+  let cf := sr_run c progs sched in
+  stealing c = true -> stuck c cf -> w0 < nw c -> st (fst cf) w0 = rs_running ->
+  qs (fst cf) = [] /\ sq (fst cf) = [] /\ heldl (fst cf) = [] /\ Permutation (map fst (executed (fst cf))) (submitted (fst cf)).
+Proof.
+  intros c progs sched w0 Hok Hnl cf St S Hw Hr. destruct (sr_nolow c progs sched ltac:(lia) Hnl) as [_ E2].
+  destruct (no_task_stranded_stealing c progs sched w0 Hok St S Hw Hr) as (A & B & _ & D). destruct (D E2) as [D1 D2]. auto.
+Qed.
